@@ -537,14 +537,20 @@ Lens(S) == {N1("len", x) : x \in S}
 AQ == IF Quick THEN At(AtomNames \ {"0", "gi", "gci", "pci", "gai", "gcai", "gb", "300"}) ELSE A0
 ArithU == IF Quick THEN Add(Rn, Rn) \cup Add(At({"i"}), AQ) \cup Add(AQ, At({"b"})) ELSE Add(A0, A0)
 NegU == {N1("neg", x) : x \in AQ}
+\* unary plus is an arithmetic operator too: its result is an int whatever the operand (wave 10: `unary_plus_elided`
+\* kept the operand's type, so `+b` chose the byte overload and was no longer an int for `??` and declarations)
+PosU == {N1("pos", x) : x \in At({"b", "5", "'a'", "i", "t", "s", "ci"} \cap AtomNames)}
 CastU == Casts(AQ, CastT)
-LitU == IF Quick THEN {NLit(<<>>)} \cup {NLit(<<x>>) : x \in AQ} \cup {NLit(<<x, y>>) : x \in R2, y \in R2}
-        ELSE Lits(A0)
+\* three-element literals: the element type is the first entry type to which EVERY entry is coercible, not only one
+\* representative per type (wave 10: `literal_type_from_representatives` typed ['a', i, 1] as const byte[])
+Lit3 == {NLit(<<x, y, z>>) : x \in At({"'a'", "i", "5"}), y \in At({"'a'", "i", "5", "b"}), z \in At({"'a'", "i", "5"})}
+LitU == (IF Quick THEN {NLit(<<>>)} \cup {NLit(<<x>>) : x \in AQ} \cup {NLit(<<x, y>>) : x \in R2, y \in R2}
+         ELSE Lits(A0)) \cup Lit3
 IdxU == Idx0(AQ) \cup (IF Quick THEN {} ELSE {N2("idx", x, N0("i")) : x \in A0})
 LenU == Lens(AQ)
 BoolU == {N2("lt", N0("i"), N0("b")), N2("lt", N0("5"), N0("300")), N2("and", N0("t"), N0("t")),
           N1("not", N0("s"))}
-E1 == AQ \cup ArithU \cup NegU \cup CastU \cup LitU \cup IdxU \cup LenU \cup BoolU
+E1 == AQ \cup ArithU \cup NegU \cup PosU \cup CastU \cup LitU \cup IdxU \cup LenU \cup BoolU
 
 IntByte == {"int", "byte"}
 E2 == IF Quick
@@ -596,8 +602,8 @@ IncOps == IF Quick THEN {"add", "mod"} ELSE ArithOps
 OperandOps == IF Quick THEN {"add", "mod", "lt", "eq", "and"}
               ELSE ArithOps \cup CmpOps \cup EqOps \cup LogOps
 OperandOthers == IF Quick THEN At({"i", "t", "5", "s"}) ELSE At({"i", "b", "t", "s", "5", "ai"})
-SpecOthers == IF Quick THEN At({"i", "t", "5"})
-              ELSE At({"i", "b", "t", "s", "5", "'a'", "true", "ai"}) \cup {N2("add", N0("b"), N0("b"))}
+SpecOthers == IF Quick THEN At({"i", "t", "5", "s", "fe()"})   \* s, fe(): same-typed non-scalar operands on both sides (wave 10: `speculation_scalar_blacklist`)
+              ELSE At({"i", "b", "t", "s", "5", "'a'", "true", "ai", "fe()"}) \cup {N2("add", N0("b"), N0("b"))}
 ElemOthers == IF Quick THEN At({"i", "b", "s"}) ELSE At({"i", "b", "t", "s", "5", "'a'", "ai", "fe()"})
 IdxSources == At({"ai", "s", "cab", "\"str\""}) \cup {NLit(<<N0("5"), N0("300")>>)}
 SpecDeclS == Rn \cup At({"t", "true"})
@@ -703,7 +709,7 @@ NoRetVerdict(c) == IF c.tgt = "empty" THEN "accept" ELSE "reject"       \* (T11)
 ParamU == IF Quick THEN {"int", "byte", "string", "byte[]", "const byte[]", "int[]", "const int[]"}
           ELSE Scalars \cup {ArrM(e) : e \in Scalars} \cup {ArrC(e) : e \in Scalars}
 ArgU == A0 \cup
-    {N2("add", N0("b"), N0("b")), N2("add", N0("5"), N0("5")), N2("add", N0("i"), N0("b")), N1("neg", N0("b")),
+    {N2("add", N0("b"), N0("b")), N2("add", N0("5"), N0("5")), N2("add", N0("i"), N0("b")), N1("neg", N0("b")), N1("pos", N0("b")), N1("pos", N0("5")), NLit(<<N0("'a'"), N0("i"), N0("5")>>), NLit(<<N0("'a'"), N0("5"), N0("i")>>), NLit(<<N0("5"), N0("i"), N0("'a'")>>),
      NLit(<<>>), NLit(<<N0("5")>>), NLit(<<N0("b")>>), NLit(<<N0("5"), N0("b")>>), NLit(<<N0("b"), N0("5")>>),
      NLit(<<N0("i")>>), NLit(<<N0("i"), N0("b")>>), NLit(<<N0("\"str\"")>>), NLit(<<N0("t")>>),
      NLit(<<N0("s")>>), NLit(<<N0("'a'")>>), NLit(<<N0("5"), N0("'a'")>>), NLit(<<N0("true")>>),
